@@ -166,7 +166,54 @@ def oracle_fails(case):
     return None
 
 
-replay_case = run_case
+def _call(case, x, n, out=None):
+    f = getattr(nd, case['fn'])
+    kw = {} if out is None else {'out': out}
+    if case['fn'] == 'polygamma':
+        return f(case['m'], x, n=n, **kw)
+    if case['fn'] == 'hyperu':
+        return f(case['a'], case['b'], x, n=n, **kw)
+    if case['fn'] == 'clip':
+        return f(case['lo'], case['hi'], x, n=n, **kw)
+    return f(x, n=n, **kw)
+
+
+def calling_fails(ctx, case):
+    """the documented calling conventions give the same derivative: no `out`, a fresh `out`, and `out` aliasing the
+    argument (in place); the argument is not modified unless it is the output"""
+    rng = __import__('random').Random(case.get('seed', 0))
+    dom = T[case['fn']][0]
+    xs = np.array([case['x']] + [gen_x(rng, dom) for _ in range(2)], dtype=float)
+    n = case['n']
+    try:
+        with np.errstate(all='ignore'):
+            x0 = xs.copy()
+            a = np.array(_call(case, x0, n), dtype=float)
+            if not np.array_equal(x0, xs):
+                return 'calling-mutated-%s: the argument was modified by nthderiv.%s(x, n=%d)' % (case['fn'], case['fn'], n)
+            o = np.full_like(xs, 7.5)
+            x1 = xs.copy()
+            r = _call(case, x1, n, out=o)
+            if not np.array_equal(x1, xs):
+                return 'calling-mutated-%s: the argument was modified by nthderiv.%s(x, out=o, n=%d)' % (case['fn'], case['fn'], n)
+            b = np.array(o, dtype=float)
+            buf = xs.copy()
+            _call(case, buf, n, out=buf)
+            c = np.array(buf, dtype=float)
+    except Exception as ex:
+        return 'calling-exception-%s: nthderiv.%s with an out argument raised %s' % (case['fn'], case['fn'], type(ex).__name__)
+    ok = lambda u, w: np.allclose(u, w, rtol=1e-12, atol=1e-300, equal_nan=True)
+    if not ok(a, b):
+        return 'calling-out-%s: nthderiv.%s(x, out=o, n=%d) differs from the value returned without out' % (case['fn'], case['fn'], n)
+    if not ok(a, c):
+        return 'calling-inplace-%s: nthderiv.%s(buf, out=buf, n=%d) is not the n-th derivative at the original points' % (case['fn'], case['fn'], n)
+    return None
+
+
+def replay_case(ctx, case):
+    if case.get('calling'):
+        return calling_fails(ctx, case)
+    return run_case(ctx, case)
 
 
 def run(ctx):
@@ -190,3 +237,8 @@ def run(ctx):
         r = run_case(ctx, case)
         if r:
             ctx.report(case, 'failure', r)
+            continue
+        cc = dict(case, calling=True, seed=ctx.rng.randrange(1 << 30))
+        r = calling_fails(ctx, cc)
+        if r:
+            ctx.report(cc, 'failure', r)
